@@ -34,6 +34,21 @@ expect(all(isinstance(r, list) and len(r) == 2 and all(isinstance(x, str) for x 
 expect(all(isinstance(x, str) for x in tables['uncountable_words']), 'uncountable shape')
 expect(isinstance(tables['irregular_words'], dict), 'irregular shape')
 
+# does the out-file argument type create/truncate the file while the arguments are parsed? (F14a)
+import tempfile, shutil
+from dataclass_wizard.wizard_cli import cli
+_d = tempfile.mkdtemp(prefix='schematables_')
+try:
+    _p = os.path.join(_d, 'probe.py')
+    _h = cli.FileTypeWithExt('w', ext='.py')(_p)
+    opened_at_parse = os.path.exists(_p)
+    try:
+        _h.close()
+    except Exception:
+        pass
+finally:
+    shutil.rmtree(_d, ignore_errors=True)
+
 attrs = sorted(a for a in dir(JSONWizard) if a.isidentifier() and not a.startswith('__'))
 expect('from_dict' in attrs and 'to_dict' in attrs, 'JSONWizard lacks from_dict/to_dict')
 
@@ -47,3 +62,4 @@ print('Definition singularize_uncountable : list pstr := %s.\n' % coq_list([coq_
 print('Definition singularize_irregular : list (pstr * pstr) := %s.\n'
       % coq_list(['(%s, %s)' % (coq_str(a), coq_str(b)) for a, b in tables['irregular_words'].items()]))
 print('Definition jsonwizard_attrs : list pstr := %s.\n' % coq_list([coq_str(x) for x in attrs]))
+print('Definition cli_output_opened_at_parse : bool := %s.\n' % ('true' if opened_at_parse else 'false'))
